@@ -39,6 +39,8 @@ pub enum CStep {
     LogsWait,
     AddressForPort(u16),
     ShellExec(String),
+    /// a second container started while this one is running
+    Nested { cfg: ContainerCfg, steps: Vec<CStep> },
 }
 
 #[derive(Clone, Debug, PartialEq, Serialize, Deserialize)]
@@ -165,6 +167,14 @@ fn gen_build(r: &mut Rng, depth: u32) -> BuildNode {
                         _ => CStep::ShellExec(tricky(r)),
                     });
                 }
+                if r.chance(1, 4) {
+                    let inner = gen_container(r);
+                    let inner_steps = (0..r.usize(3))
+                        .map(|_| if r.bool() { CStep::LogsNow } else { CStep::ShellExec(tricky(r)) })
+                        .collect();
+                    let at = r.usize(cs.len() + 1);
+                    cs.insert(at, CStep::Nested { cfg: inner, steps: inner_steps });
+                }
                 steps.push(Step::StartContainer { cfg, steps: cs });
             }
             3 => steps.push(Step::RunShell(tricky(r))),
@@ -196,7 +206,14 @@ pub fn count_positions(n: &BuildNode) -> u32 {
     for s in &n.steps {
         c += 1;
         match s {
-            Step::StartContainer { steps, .. } => c += steps.len() as u32 + 1,
+            Step::StartContainer { steps, .. } => {
+                c += steps.len() as u32 + 1;
+                for cs in steps {
+                    if let CStep::Nested { steps: inner, .. } = cs {
+                        c += inner.len() as u32 + 1;
+                    }
+                }
+            }
             Step::Rebuild(b) => c += count_positions(b),
             _ => {}
         }
